@@ -121,3 +121,25 @@ func Harness_K12_Write() {
 	vrtAssert("C12/K12/shared-code-once", vrtCount(out, "type attrReadMissingDiag struct") == 1)
 	vrtReach("K12/write/end")
 }
+
+// Harness_K12_Register: RegisterMessage records every message it is given (root or nested, whatever
+// is already registered) - write() relies on finding every root message in the list.
+func Harness_K12_Register() {
+	n := vrtLen(2)
+	names := [2]string{vrtString(), vrtString()}
+	roots := [2]bool{vrtBool(), vrtBool()}
+	p := NewPlugin()
+	for i := 0; i < 2; i++ {
+		if i < n {
+			p.Messages = append(p.Messages, &Message{Name: names[i], IsRoot: roots[i]})
+		}
+	}
+	m := &Message{Name: vrtString(), IsRoot: vrtBool()}
+	before := len(p.Messages)
+	p.RegisterMessage(m)
+	vrtAssert("C12/K12/register-appends", len(p.Messages) == before+1)
+	if len(p.Messages) == before+1 {
+		vrtAssert("C12/K12/register-keeps-the-message", p.Messages[before] == m)
+	}
+	vrtReach("K12/register/end")
+}
